@@ -57,6 +57,8 @@ def _system(draw, big):
     return {"kind": "system", "spec": spec, "theory": theory, "td": td, "as_ops": as_ops, "secular": secular,
             # secularize() called on the finished tensor, possibly more than once, each time in some basis
             "resecularize": draw(st.lists(st.sampled_from(["site", "eigen", "other"]), max_size=3)),
+            # the non-default implementation secularize(legacy=False), called once
+            "legacy_false": draw(st.sampled_from([False, False, True])),
             "cutoff_time": draw(st.sampled_from([None, None, 0.3, 0.6])) if theory == "stR" else None,
             "coupling_cutoff": draw(st.sampled_from([None, 0, 5, 40, 120, 400])) if theory == "cRF" else None,
             "route": draw(st.sampled_from(["opensystem", "direct"])) if theory == "stR" else "opensystem",
@@ -212,7 +214,10 @@ def _check_system(case, ctx):
             guarded(ctx, "read", lambda: read_all_bases(ctx, qr, RT, ham, case["other"], A, tag + "/converted", False), tag)
 
     # ---- secularisation: differential against an unsecularised twin ----------------------------
-    if case["secular"] and case["theory"] == "stR":
+    if case["secular"] and (case["theory"] == "stR" or (case["theory"] == "cRF" and not case["td"]
+                                                          and not case.get("coupling_cutoff"))):
+        # (combined tensor: only without a coupling cut-off, where the theory's basis is the eigenbasis of the returned
+        # Hamiltonian)
         ok, r2 = guarded(ctx, "construct", lambda: _build(qr, case, False, as_ops=False), tag + "/twin")
         if not ok:
             return
@@ -255,13 +260,19 @@ def _check_system(case, ctx):
         RS, ham3 = r3
         oth = SelfAdjointOperator(data=numpy.array(case["other"], dtype=float))
         import contextlib
+        legacy_false = bool(case.get("legacy_false"))
+        if legacy_false:
+            seq = seq[:1]           # (that implementation marks the tensor as secular once and for all)
         for k, where_b in enumerate(seq):
             cm = {"site": contextlib.nullcontext(), "eigen": qr.eigenbasis_of(ham3), "other": qr.eigenbasis_of(oth)}[where_b]
 
             def call():
                 with cm:
                     before = numpy.array(RS.data)
-                    RS.secularize()
+                    if legacy_false:
+                        RS.secularize(legacy=False)
+                    else:
+                        RS.secularize()
                     return before, numpy.array(RS.data)
             ok, ba = guarded(ctx, "secularize", call, tag + "/" + where_b, call_no=k)
             if not ok:
@@ -274,7 +285,7 @@ def _check_system(case, ctx):
                     keep[a, a, b, b] = True
                     keep[a, b, a, b] = True
             sc = max(1e-300, float(numpy.max(numpy.abs(before))))
-            wtag = "call-%d-in-%s" % (min(k, 1), where_b)
+            wtag = "call-%d-in-%s%s" % (min(k, 1), where_b, "/legacy=False" if legacy_false else "")
             ctx.bound("secularize-call/other-elements-zero", float(numpy.max(numpy.abs(after[~keep]))), 1e-12 * sc, where=wtag)
             ctx.bound("secularize-call/kept-elements-unchanged", float(numpy.max(numpy.abs((after - before)[keep]))),
                       1e-12 * sc, where=wtag)
